@@ -47,8 +47,18 @@ type Cond struct {
 	Waiters []*Thread
 }
 
+// NestedAtomic: while the running thread already holds a mutex, locking a FREE mutex,
+// Signal and Broadcast do not yield.  Used for z_chan.go's notifyOps, which runs inside
+// a channel's critical section and takes each registered select's private mutex
+// (never held at a yield point: a leaf lock), sets its flag and signals its private
+// condition variable: nobody can observe the channel meanwhile, and the flag/wake-up
+// commute with every step another thread can take, so the whole critical section stays
+// one atomic step (Lipton reduction).  Off by default (C11 needs the Signal choice).
+var NestedAtomic bool
+
 type Thread struct {
 	ID     int
+	Held   int // number of mutexes held
 	Kind   Kind
 	M      *Mutex
 	C      *Cond
@@ -218,11 +228,17 @@ func (m *Mutex) Lock() {
 		m.Owner = outside
 		return
 	}
+	if NestedAtomic && Cur.Held > 0 && m.Owner == nil {
+		m.Owner = Cur
+		Cur.Held++
+		return
+	}
 	yield(KLock, m, nil)
 	if m.Owner != nil {
 		panic("vsched: scheduled at Lock while the mutex is held")
 	}
 	m.Owner = Cur
+	Cur.Held++
 }
 
 // TryLock yields like Lock (it is a visible action) but never blocks.
@@ -239,6 +255,7 @@ func (m *Mutex) TryLock() bool {
 		return false
 	}
 	m.Owner = Cur
+	Cur.Held++
 	return true
 }
 
@@ -249,6 +266,8 @@ func (m *Mutex) Unlock() {
 	}
 	if m.Owner != me {
 		fault("unlock-by-non-owner")
+	} else if Cur != nil {
+		Cur.Held--
 	}
 	m.Owner = nil
 }
@@ -261,6 +280,9 @@ func (c *Cond) Wait(m *Mutex) {
 	if m.Owner != t {
 		fault("wait-without-mutex")
 	}
+	if m.Owner == t {
+		t.Held--
+	}
 	m.Owner = nil
 	c.Waiters = append(c.Waiters, t)
 	yield(KParked, m, c)
@@ -268,6 +290,7 @@ func (c *Cond) Wait(m *Mutex) {
 		panic("vsched: scheduled after Wait while the mutex is held")
 	}
 	m.Owner = t
+	t.Held++
 }
 
 func (c *Cond) Signal() {
@@ -279,7 +302,9 @@ func (c *Cond) Signal() {
 		}
 		return
 	}
-	yield(KSignal, nil, c)
+	if !(NestedAtomic && Cur.Held > 0) {
+		yield(KSignal, nil, c)
+	}
 	if n := len(c.Waiters); n > 0 {
 		w := c.Waiters[Cur.Choice%n]
 		c.remove(w)
@@ -288,7 +313,7 @@ func (c *Cond) Signal() {
 }
 
 func (c *Cond) Broadcast() {
-	if Cur != nil {
+	if Cur != nil && !(NestedAtomic && Cur.Held > 0) {
 		yield(KBcast, nil, c)
 	}
 	for _, w := range c.Waiters {
